@@ -780,8 +780,31 @@ def rule_r21(repo):
     return res
 
 
+def rule_r22(repo):
+    """sa/quantdist.py: gen_and / gen_or (evaluation of bfun_elim) return a term equivalent to the conjunction /
+    disjunction of their arguments in every case of the arguments' quantifier shapes."""
+    from ..quantdist import check_function
+    res = RuleResult('C18.R22', 'moving a connective under a common quantifier keeps the meaning: & under !, | under ?, nothing else', floor=20)
+    m = repo.module('smt/veriT/verit_macro.py')
+    spec = {'gen_and': 'and', 'gen_or': 'or'}
+    for fn, kind in sorted(spec.items()):
+        need(fn in m.functions, 'smt/veriT/verit_macro.py: %s not found' % fn)
+        seen = set()
+        for text, ok, detail in check_function(m.functions, fn, kind, spec):
+            if text in seen:
+                text += ' (heads differ)'
+            seen.add(text)
+            if ok is None:
+                res.info.setdefault('not_analysed', []).append('%s [%s]: %s' % (fn, text, detail))
+                continue
+            res.add('smt/veriT/verit_macro.py :: %s :: case(%s)' % (fn, text), ok,
+                    detail if ok else detail + ' -- (?x. A) & (?x. B) is not ?x. A & B: bfun_elim accepted ?x. p false x & p true x from !b. ?x. p b x',
+                    m.functions[fn].loc, nontrivial='same variable' in text)
+    return res
+
+
 def rules(repo):
     r1 = mr.zip_rule(repo, 'C18.R1', mr.verit_eval_side_functions(repo), floor=9)
     r2 = mr.hyps_rule(repo, 'C18.R2', mr.verit_macros, floor=80)
     return [r1, r2, rule_r3(repo), rule_r4(repo), rule_r5(repo), rule_r6(repo), rule_r7(repo), rule_r8(repo), rule_r9(repo), rule_r10(repo), rule_r11(repo), mr.expansion_uses_rule(repo, 'C18.R12', mr.verit_macros, floor=15), rule_r13(repo), rule_r14(repo),
-            rule_r15(repo), rule_r16(repo), rule_r17(repo), rule_r18(repo), rule_r19(repo), rule_r20(repo), rule_r21(repo)]
+            rule_r15(repo), rule_r16(repo), rule_r17(repo), rule_r18(repo), rule_r19(repo), rule_r20(repo), rule_r21(repo), rule_r22(repo)]
